@@ -333,7 +333,7 @@ def decision_table(fnode):
                 continue
             if any(isinstance(x, ast.Name) and x.id in local_names for x in ast.walk(a)):
                 raise AnalysisIncomplete(f"comparison {norm(a)[:60]} reads a local that is assigned more than once (its value depends on the path)")
-            if isinstance(a, ast.Constant):
+            if isinstance(a, ast.Constant) or (isinstance(a, ast.Name) and a.id == "NotImplemented"):
                 continue
             if norm(a) not in [norm(x) for x in atoms]:
                 atoms.append(a)
@@ -366,6 +366,8 @@ def decision_table(fnode):
     def ev(expr, asg, env):
         if isinstance(expr, ast.Constant):
             return expr.value
+        if isinstance(expr, ast.Name) and expr.id == "NotImplemented":
+            return NotImplemented
         if isinstance(expr, ast.Name) and expr.id in local_names:
             if expr.id not in env:
                 raise AnalysisIncomplete(f"local {expr.id} read before assignment on some path")
